@@ -2130,28 +2130,28 @@ func (p *wat2cWorker) buildFunc_ins(w io.Writer, fn *ast.Func, stk *valueTypeSta
 	case token.INS_I32_TRUNC_F32_S:
 		sp0 := stk.Pop(token.F32)
 		ret0 := stk.Push(token.I32)
-		fmt.Fprintf(w, "%sR%d.i32 = (int32_t)(truncf(R%d.f32)); // %s\n",
+		fmt.Fprintf(w, "%sR%d.i32 = I32_TRUNC_F32_S(R%d.f32); // %s\n",
 			indent, ret0, sp0,
 			insString(i),
 		)
 	case token.INS_I32_TRUNC_F32_U:
 		sp0 := stk.Pop(token.F32)
 		ret0 := stk.Push(token.I32)
-		fmt.Fprintf(w, "%sR%d.i32 = (int32_t)(uint32_t)(truncf(R%d.f32)); // %s\n",
+		fmt.Fprintf(w, "%sR%d.i32 = I32_TRUNC_F32_U(R%d.f32); // %s\n",
 			indent, ret0, sp0,
 			insString(i),
 		)
 	case token.INS_I32_TRUNC_F64_S:
 		sp0 := stk.Pop(token.F64)
 		ret0 := stk.Push(token.I32)
-		fmt.Fprintf(w, "%sR%d.i32 = (int32_t)(trunc(R%d.f64)); // %s\n",
+		fmt.Fprintf(w, "%sR%d.i32 = I32_TRUNC_F64_S(R%d.f64); // %s\n",
 			indent, ret0, sp0,
 			insString(i),
 		)
 	case token.INS_I32_TRUNC_F64_U:
 		sp0 := stk.Pop(token.F64)
 		ret0 := stk.Push(token.I32)
-		fmt.Fprintf(w, "%sR%d.i32 = (int32_t)(uint32_t)(trunc(R%d.f64)); // %s\n",
+		fmt.Fprintf(w, "%sR%d.i32 = I32_TRUNC_F64_U(R%d.f64); // %s\n",
 			indent, ret0, sp0,
 			insString(i),
 		)
@@ -2172,28 +2172,28 @@ func (p *wat2cWorker) buildFunc_ins(w io.Writer, fn *ast.Func, stk *valueTypeSta
 	case token.INS_I64_TRUNC_F32_S:
 		sp0 := stk.Pop(token.F32)
 		ret0 := stk.Push(token.I64)
-		fmt.Fprintf(w, "%sR%d.i64 = (int64_t)(int32_t)(truncf(R%d.f32)); // %s\n",
+		fmt.Fprintf(w, "%sR%d.i64 = I64_TRUNC_F32_S(R%d.f32); // %s\n",
 			indent, ret0, sp0,
 			insString(i),
 		)
 	case token.INS_I64_TRUNC_F32_U:
 		sp0 := stk.Pop(token.F32)
 		ret0 := stk.Push(token.I64)
-		fmt.Fprintf(w, "%sR%d.i64 = (int64_t)(uint32_t)(truncf(R%d.f32)); // %s\n",
+		fmt.Fprintf(w, "%sR%d.i64 = I64_TRUNC_F32_U(R%d.f32); // %s\n",
 			indent, ret0, sp0,
 			insString(i),
 		)
 	case token.INS_I64_TRUNC_F64_S:
 		sp0 := stk.Pop(token.F64)
 		ret0 := stk.Push(token.I64)
-		fmt.Fprintf(w, "%sR%d.i64 = (int64_t)(trunc(R%d.f64)); // %s\n",
+		fmt.Fprintf(w, "%sR%d.i64 = I64_TRUNC_F64_S(R%d.f64); // %s\n",
 			indent, ret0, sp0,
 			insString(i),
 		)
 	case token.INS_I64_TRUNC_F64_U:
 		sp0 := stk.Pop(token.F64)
 		ret0 := stk.Push(token.I64)
-		fmt.Fprintf(w, "%sR%d.i64 = (int64_t)(uint64_t)(trunc(R%d.f64)); // %s\n",
+		fmt.Fprintf(w, "%sR%d.i64 = I64_TRUNC_F64_U(R%d.f64); // %s\n",
 			indent, ret0, sp0,
 			insString(i),
 		)
